@@ -30,27 +30,78 @@ extern RegisterAtom *g_cell;     /* arbitrary valid word (ghost) */
 #define RT_DURING(t) (((t)->flags & REG_TF_DURING_INIT) != 0)
 #define RT_E(t, i) ((t)->entry + (i))
 #define RT_A(t, i) ((t)->entry[i].area)
-#define RT_N(t, i) SPEC_REG_WORDS((t)->entry[i].type)
-#define RT_OFF(t, i) ((t)->entry[i].offset)
-#define RT_W(t, i) (RT_A(t, i)->mem + RT_OFF(t, i))
 #define RT_TY(t, i) ((t)->entry[i].type)
 #define RT_ADDRESSED(t, i) (RT_INIT(t) && (i) < (t)->entries)
 
-/* entry i is well formed (established by register_init for every entry) */
+/* The helper functions below take the entry and its area BY VALUE: a clause
+ * then dereferences the path t->entry[idx].area once per call instead of once
+ * per use (symbolic execution of each such dereference is what costs time). */
+
+/* entry e of area a is well formed (established by register_init) */
+static inline bool rt_entry_wf(RegisterEntry e, RegisterArea a)
+{
+  return SPEC_REG_TYPE_OK(e.type) && SPEC_REGV_TYPE_OK(e.check.type)
+      && IMPLIES(e.check.type == REGV_TYPE_CALLBACK, e.check.arg.cb == st_validator)
+      && e.offset <= a.size && SPEC_REG_WORDS(e.type) <= a.size - e.offset;
+}
+
+/* the area is memory backed or callback backed (or has no write callback) */
+static inline bool rt_area_w_ok(RegisterArea a)
+{
+  return a.write == NULL || a.write == reg_mem_write || a.write == st_area_write;
+}
+
+static inline bool rt_area_r_ok(RegisterArea a)
+{
+  return a.read == reg_mem_read || a.read == st_area_read;
+}
+
+/* entry i is well formed and its storage is valid, distinct from the table */
 #define RT_ENTRY_OK(t, i) \
   (__CPROVER_r_ok(RT_E(t, i), sizeof(RegisterEntry)) \
-   && SPEC_REG_TYPE_OK(RT_TY(t, i)) && SPEC_REGV_TYPE_OK((t)->entry[i].check.type) \
-   && IMPLIES((t)->entry[i].check.type == REGV_TYPE_CALLBACK, (t)->entry[i].check.arg.cb == st_validator) \
    && __CPROVER_r_ok(RT_A(t, i), sizeof(RegisterArea)) \
-   && RT_OFF(t, i) <= RT_A(t, i)->size && RT_N(t, i) <= RT_A(t, i)->size - RT_OFF(t, i) \
+   && rt_entry_wf((t)->entry[i], *RT_A(t, i)) \
    && __CPROVER_rw_ok(RT_A(t, i)->mem, (size_t)RT_A(t, i)->size * sizeof(RegisterAtom)) \
    && !__CPROVER_same_object(RT_A(t, i)->mem, (t)) && !__CPROVER_same_object(RT_A(t, i)->mem, (t)->entry) \
    && !__CPROVER_same_object(RT_A(t, i)->mem, RT_A(t, i)))
-/* its area is memory backed or callback backed (or has no write callback) */
-#define RT_AREA_W_OK(t, i) \
-  (RT_A(t, i)->write == NULL || RT_A(t, i)->write == reg_mem_write || RT_A(t, i)->write == st_area_write)
-#define RT_AREA_R_OK(t, i) \
-  (RT_A(t, i)->read == reg_mem_read || RT_A(t, i)->read == st_area_read)
+#define RT_AREA_W_OK(t, i) rt_area_w_ok(*RT_A(t, i))
+#define RT_AREA_R_OK(t, i) rt_area_r_ok(*RT_A(t, i))
+
+/* the first word of register i */
+static inline RegisterAtom *rt_words(const RegisterTable *t, RegisterHandle i)
+{
+  const RegisterEntry e = t->entry[i];
+  return e.area->mem + e.offset;
+}
+
+/* the words of register i hold exactly the image of `bits` */
+static inline bool rt_holds(const RegisterTable *t, RegisterHandle i, uint64_t bits)
+{
+  const RegisterEntry e = t->entry[i];
+  const RegisterAtom *w = e.area->mem + e.offset;
+  const unsigned n = SPEC_REG_WORDS(e.type);
+  const bool be = RT_BE(t);
+  return SPEC_WORDS_ARE(w, n, bits, be);
+}
+
+/* the pattern whose image the words of register i are */
+static inline uint64_t rt_bits(const RegisterTable *t, RegisterHandle i)
+{
+  const RegisterEntry e = t->entry[i];
+  const RegisterAtom *w = e.area->mem + e.offset;
+  const unsigned n = SPEC_REG_WORDS(e.type);
+  const bool be = RT_BE(t);
+  return SPEC_DECODE(w, n, be);
+}
+
+/* cell (word k of register i's area) lies in that area but is not one of the
+ * register's own words */
+static inline bool rt_cell_beside(const RegisterTable *t, RegisterHandle i, const RegisterAtom *cell, size_t k)
+{
+  const RegisterEntry e = t->entry[i];
+  const RegisterArea a = *e.area;
+  return k < a.size && cell == a.mem + k && (k < e.offset || k - e.offset >= SPEC_REG_WORDS(e.type));
+}
 
 /* ---- serialisers / deserialisers -------------------------------------- */
 
@@ -59,9 +110,9 @@ extern RegisterAtom *g_cell;     /* arbitrary valid word (ghost) */
 static bool fn(const RegisterValue v, RegisterAtom *r, const bool bigendian) \
 __CPROVER_requires(__CPROVER_rw_ok(r, NW * sizeof(RegisterAtom))) \
 __CPROVER_assigns(__CPROVER_object_upto(r, NW * sizeof(RegisterAtom))) \
-__CPROVER_ensures(__CPROVER_return_value == spec_float_ok(TY, spec_bits(TY, v.value))) \
+__CPROVER_ensures(__CPROVER_return_value == SPEC_FLOAT_OK(TY, v.value)) \
 __CPROVER_ensures(IMPLIES(__CPROVER_return_value, \
-    SPEC_WORDS_ARE(r, NW, spec_bits(TY, v.value), bigendian))) \
+    SPEC_WORDS_ARE(r, NW, SPEC_BITS(TY, v.value), bigendian))) \
 __CPROVER_ensures(IMPLIES(!__CPROVER_return_value, \
     r[0] == __CPROVER_old(r[0]) \
     && r[RT_CLW(1u, NW)] == __CPROVER_old(r[RT_CLW(1u, NW)]) \
@@ -75,8 +126,8 @@ __CPROVER_requires(__CPROVER_r_ok(r, NW * sizeof(RegisterAtom))) \
 __CPROVER_requires(__CPROVER_rw_ok(v, sizeof(RegisterValue)) && !__CPROVER_same_object(r, v)) \
 __CPROVER_assigns(v->type, v->value) \
 __CPROVER_ensures(v->type == TY) \
-__CPROVER_ensures(SPEC_WORDS_ARE(r, NW, spec_bits(TY, v->value), bigendian)) \
-__CPROVER_ensures(__CPROVER_return_value == spec_float_ok(TY, spec_bits(TY, v->value))) \
+__CPROVER_ensures(SPEC_WORDS_ARE(r, NW, SPEC_BITS(TY, v->value), bigendian)) \
+__CPROVER_ensures(__CPROVER_return_value == SPEC_FLOAT_OK(TY, v->value)) \
 ;
 
 RDS_SER_CONTRACT(rds_u16_ser, REG_TYPE_UINT16, 1u)
@@ -100,19 +151,19 @@ RDS_DES_CONTRACT(rds_f64_des, REG_TYPE_FLOAT64, 4u)
 
 static inline bool rv_check_min_value(const RegisterValueU limit, const RegisterValue v)
 __CPROVER_assigns()
-__CPROVER_ensures(__CPROVER_return_value == spec_min_ok(v.type, v.value, limit))
+__CPROVER_ensures(__CPROVER_return_value == SPEC_MIN_OK(v.type, v.value, limit))
 ;
 
 static inline bool rv_check_max_value(const RegisterValueU limit, const RegisterValue v)
 __CPROVER_assigns()
-__CPROVER_ensures(__CPROVER_return_value == spec_max_ok(v.type, v.value, limit))
+__CPROVER_ensures(__CPROVER_return_value == SPEC_MAX_OK(v.type, v.value, limit))
 ;
 
 static inline bool rv_check_range(RegisterEntry *e, const RegisterValue v)
 __CPROVER_requires(__CPROVER_r_ok(e, sizeof(RegisterEntry)))
 __CPROVER_assigns()
 __CPROVER_ensures(__CPROVER_return_value ==
-    (spec_min_ok(v.type, v.value, e->check.arg.range.min) && spec_max_ok(v.type, v.value, e->check.arg.range.max)))
+    (SPEC_MIN_OK(v.type, v.value, e->check.arg.range.min) && SPEC_MAX_OK(v.type, v.value, e->check.arg.range.max)))
 ;
 
 static bool rv_validate(RegisterTable *t, RegisterEntry *e, const RegisterValue v)
@@ -120,7 +171,7 @@ __CPROVER_requires(__CPROVER_r_ok(t, sizeof(RegisterTable)) && __CPROVER_r_ok(e,
 __CPROVER_requires(SPEC_REG_TYPE_OK(e->type) && SPEC_REGV_TYPE_OK(e->check.type))
 __CPROVER_requires(IMPLIES(e->check.type == REGV_TYPE_CALLBACK, e->check.arg.cb == st_validator))
 __CPROVER_assigns()
-__CPROVER_ensures(__CPROVER_return_value == spec_valid(e, v, RT_DURING(t)))
+__CPROVER_ensures(__CPROVER_return_value == SPEC_VALID(e, v.type, v.value, RT_DURING(t)))
 ;
 
 /* ---- memory-area callbacks ---------------------------------------------- */
@@ -155,34 +206,73 @@ __CPROVER_ensures(IMPLIES(g_j < a->size && (g_j < offset || g_j - offset >= n),
 
 /* ---- typed set ------------------------------------------------------------ */
 
+/* Reasons for which the statement says a typed set is refused.  Several may
+ * apply at once; the statement fixes no precedence among the last three, so
+ * the contract only requires the reported code to name ONE reason that
+ * applies.  An uninitialised table and a handle that is not a register of the
+ * table are decided before anything of an entry is looked at. */
+#define RT_R_UNINIT   1u
+#define RT_R_NOENTRY  2u
+#define RT_R_RANGE    4u    /* wrong type or constraint violated (checked variant only) */
+#define RT_R_READONLY 8u    /* the area has no write callback */
+#define RT_R_INVALID  16u   /* float NaN, infinite or subnormal, read as the register's type */
+
+static inline unsigned rt_set_reasons(const RegisterTable *t, RegisterHandle idx, RegisterValue v, bool checked)
+{
+  if (!RT_INIT(t))
+    return RT_R_UNINIT;
+  if (idx >= t->entries)
+    return RT_R_NOENTRY;
+  const RegisterEntry e = t->entry[idx];
+  const RegisterArea a = *e.area;
+  unsigned r = 0u;
+  if (checked && !SPEC_VALID(&e, v.type, v.value, RT_DURING(t)))
+    r |= RT_R_RANGE;
+  if (a.write == NULL)
+    r |= RT_R_READONLY;
+  if (!SPEC_FLOAT_OK(e.type, v.value))
+    r |= RT_R_INVALID;
+  return r;
+}
+
+/* the code of a typed set is what the statement says: one of the reasons that
+ * apply; else the device's refusal (stub verdict at entry); else success */
+static inline bool rt_set_code_ok(const RegisterTable *t, RegisterHandle idx, RegisterValue v, bool checked,
+                                  uint8_t wr_verdict, RegisterAccessCode code)
+{
+  const unsigned r = rt_set_reasons(t, idx, v, checked);
+  if (r != 0u)
+    return (code == REG_ACCESS_UNINITIALISED && (r & RT_R_UNINIT) != 0u)
+        || (code == REG_ACCESS_NOENTRY && (r & RT_R_NOENTRY) != 0u)
+        || (code == REG_ACCESS_RANGE && (r & RT_R_RANGE) != 0u)
+        || (code == REG_ACCESS_READONLY && (r & RT_R_READONLY) != 0u)
+        || (code == REG_ACCESS_INVALID && (r & RT_R_INVALID) != 0u);
+  if (t->entry[idx].area->write == st_area_write && ST_REFUSES(wr_verdict))
+    return code == ST_CODE(wr_verdict);
+  return code == REG_ACCESS_SUCCESS;
+}
+
 /* the value as the register's own type reads it */
-#define RT_VBITS(t, i, v) spec_bits(RT_TY(t, i), (v).value)
-#define RT_WR_REFUSED(t, i) (RT_A(t, i)->write == st_area_write && ST_REFUSES(__CPROVER_old(st_wr_verdict)))
+#define RT_VBITS(t, i, v) SPEC_BITS(RT_TY(t, i), (v).value)
 
 #define RT_SET_CONTRACT(t, idx, v, wv) \
 __CPROVER_requires(__CPROVER_r_ok(t, sizeof(RegisterTable))) \
 __CPROVER_requires(__CPROVER_rw_ok(g_cell, sizeof(RegisterAtom))) \
 __CPROVER_requires(IMPLIES(RT_ADDRESSED(t, idx), RT_ENTRY_OK(t, idx) && RT_AREA_W_OK(t, idx))) \
 __CPROVER_assigns(st_wr_verdict; \
-    spec_set_reasons(t, idx, v, wv) == 0u && SPEC_REG_W1(RT_TY(t, idx)): __CPROVER_object_upto(RT_W(t, idx), 1u * sizeof(RegisterAtom)); \
-    spec_set_reasons(t, idx, v, wv) == 0u && SPEC_REG_W2(RT_TY(t, idx)): __CPROVER_object_upto(RT_W(t, idx), 2u * sizeof(RegisterAtom)); \
-    spec_set_reasons(t, idx, v, wv) == 0u && SPEC_REG_W4(RT_TY(t, idx)): __CPROVER_object_upto(RT_W(t, idx), 4u * sizeof(RegisterAtom))) \
-/* refused: uninitialised table; not a register of the table ("no such entry"); \
- * wrong type or constraint violated (checked variant); no write callback; \
- * NaN, infinite or subnormal float */ \
-__CPROVER_ensures(IMPLIES(spec_set_reasons(t, idx, v, wv) != 0u, \
-    spec_code_names_reason(__CPROVER_return_value.code, spec_set_reasons(t, idx, v, wv)))) \
-/* the device refuses */ \
-__CPROVER_ensures(IMPLIES(spec_set_reasons(t, idx, v, wv) == 0u && RT_WR_REFUSED(t, idx), \
-    __CPROVER_return_value.code == ST_CODE(__CPROVER_old(st_wr_verdict)))) \
+    RT_ADDRESSED(t, idx) && SPEC_REG_W1(RT_TY(t, idx)): __CPROVER_object_upto(rt_words(t, idx), 1u * sizeof(RegisterAtom)); \
+    RT_ADDRESSED(t, idx) && SPEC_REG_W2(RT_TY(t, idx)): __CPROVER_object_upto(rt_words(t, idx), 2u * sizeof(RegisterAtom)); \
+    RT_ADDRESSED(t, idx) && SPEC_REG_W4(RT_TY(t, idx)): __CPROVER_object_upto(rt_words(t, idx), 4u * sizeof(RegisterAtom))) \
+/* refused -- uninitialised table; not a register of the table ("no such \
+ * entry"); wrong type or constraint violated (checked variant); no write \
+ * callback; NaN, infinite or subnormal float; the device refuses -- or success */ \
+__CPROVER_ensures(rt_set_code_ok(t, idx, v, wv, __CPROVER_old(st_wr_verdict), __CPROVER_return_value.code)) \
 /* success: the backing words hold exactly the value in the table's byte order */ \
-__CPROVER_ensures(IMPLIES(spec_set_reasons(t, idx, v, wv) == 0u && !RT_WR_REFUSED(t, idx), \
-    __CPROVER_return_value.code == REG_ACCESS_SUCCESS && spec_reg_holds(t, idx, RT_VBITS(t, idx, v)))) \
+__CPROVER_ensures(IMPLIES(__CPROVER_return_value.code == REG_ACCESS_SUCCESS, rt_holds(t, idx, RT_VBITS(t, idx, v)))) \
 /* a refused set leaves every word unchanged; a successful one every other word */ \
 __CPROVER_ensures(IMPLIES(__CPROVER_return_value.code != REG_ACCESS_SUCCESS, *g_cell == __CPROVER_old(*g_cell))) \
-__CPROVER_ensures(IMPLIES(__CPROVER_return_value.code == REG_ACCESS_SUCCESS \
-    && g_k < RT_A(t, idx)->size && g_cell == RT_A(t, idx)->mem + g_k \
-    && (g_k < RT_OFF(t, idx) || g_k - RT_OFF(t, idx) >= RT_N(t, idx)), *g_cell == __CPROVER_old(*g_cell))) \
+__CPROVER_ensures(IMPLIES(__CPROVER_return_value.code == REG_ACCESS_SUCCESS && rt_cell_beside(t, idx, g_cell, g_k), \
+    *g_cell == __CPROVER_old(*g_cell))) \
 __CPROVER_ensures(t->flags == __CPROVER_old(t->flags) && t->entries == __CPROVER_old(t->entries) \
     && t->entry == __CPROVER_old(t->entry))
 
@@ -201,8 +291,24 @@ RT_SET_CONTRACT(t, idx, v, false)
 
 /* ---- typed get ------------------------------------------------------------ */
 
-#define RT_RD_REFUSED(t, i) (RT_A(t, i)->read == st_area_read && ST_REFUSES(__CPROVER_old(st_rd_verdict)))
 #define RT_V_SAME(v) ((v)->type == __CPROVER_old((v)->type) && (v)->value.u64 == __CPROVER_old((v)->value.u64))
+
+/* outcome of a typed get, given the value it left in *v (out) */
+static inline bool rt_get_ok(const RegisterTable *t, RegisterHandle idx, uint8_t rd_verdict,
+                             RegisterValue out, bool out_same, RegisterAccessCode code)
+{
+  if (!RT_INIT(t))
+    return code == REG_ACCESS_UNINITIALISED && out_same;
+  if (idx >= t->entries)
+    return code == REG_ACCESS_NOENTRY && out_same;
+  const RegisterEntry e = t->entry[idx];
+  if (e.area->read == st_area_read && ST_REFUSES(rd_verdict))
+    return code == ST_CODE(rd_verdict) && out_same;
+  /* the returned value is the one whose image the backing words are; it is
+   * reported invalid iff it is a NaN, infinite or subnormal float */
+  return out.type == e.type && rt_holds(t, idx, SPEC_BITS(e.type, out.value))
+      && code == (SPEC_FLOAT_OK(e.type, out.value) ? REG_ACCESS_SUCCESS : REG_ACCESS_INVALID);
+}
 
 RegisterAccess register_get(RegisterTable *t, RegisterHandle idx, RegisterValue *v)
 __CPROVER_requires(__CPROVER_r_ok(t, sizeof(RegisterTable)))
@@ -211,16 +317,7 @@ __CPROVER_requires(__CPROVER_rw_ok(g_cell, sizeof(RegisterAtom)) && !__CPROVER_s
 __CPROVER_requires(IMPLIES(RT_ADDRESSED(t, idx), RT_ENTRY_OK(t, idx) && RT_AREA_R_OK(t, idx)
     && !__CPROVER_same_object(RT_A(t, idx)->mem, v)))
 __CPROVER_assigns(st_rd_verdict; RT_ADDRESSED(t, idx): v->type, v->value)
-__CPROVER_ensures(IMPLIES(!RT_INIT(t), __CPROVER_return_value.code == REG_ACCESS_UNINITIALISED && RT_V_SAME(v)))
-__CPROVER_ensures(IMPLIES(RT_INIT(t) && idx >= t->entries,
-    __CPROVER_return_value.code == REG_ACCESS_NOENTRY && RT_V_SAME(v)))
-__CPROVER_ensures(IMPLIES(RT_ADDRESSED(t, idx) && RT_RD_REFUSED(t, idx),
-    __CPROVER_return_value.code == ST_CODE(__CPROVER_old(st_rd_verdict)) && RT_V_SAME(v)))
-/* the returned value is the one whose image the backing words are */
-__CPROVER_ensures(IMPLIES(RT_ADDRESSED(t, idx) && !RT_RD_REFUSED(t, idx),
-    v->type == RT_TY(t, idx) && spec_reg_holds(t, idx, spec_bits(v->type, v->value))
-    && __CPROVER_return_value.code ==
-       (spec_float_ok(v->type, spec_bits(v->type, v->value)) ? REG_ACCESS_SUCCESS : REG_ACCESS_INVALID)))
+__CPROVER_ensures(rt_get_ok(t, idx, __CPROVER_old(st_rd_verdict), *v, RT_V_SAME(v), __CPROVER_return_value.code))
 __CPROVER_ensures(*g_cell == __CPROVER_old(*g_cell))
 __CPROVER_ensures(t->flags == __CPROVER_old(t->flags) && t->entries == __CPROVER_old(t->entries)
     && t->entry == __CPROVER_old(t->entry))
